@@ -126,7 +126,7 @@ def stage(ctx, binp, mc_defs, cfg_name, ends, scenario):
     per_cfg = 40 if thorough else 8
     for c, kw in sims:
         r = ctx.tlc(S, "MC_BSPOverrunSim", "MC_BSPOverrunSim.cfg", defines=defs(*c, **kw), workers=1,
-                    simulate="num=%d" % (600 if thorough else 120), depth=400, name="sim-overrun-" + cfg_name(*c, **kw),
+                    simulate="num=%d" % (1200 if thorough else 300), depth=400, name="sim-overrun-" + cfg_name(*c, **kw),
                     timeout=900, heap="2g")
         cand = {}
         for s in r["prints"]:
